@@ -724,6 +724,51 @@ def r15_negative_node_and_charge_parameters(idx, r):
                   msg=f"`{norm(s_.stmt)}` also runs while Database.load puts the assembly back into the core: the {s_.attr} read from the file is replaced by a value computed from the present state")
 
 
+def r17_loaded_state_not_recomputed(idx, r):
+    """(a) Core.processLoading works out the core's mesh parameters (axialMesh, referenceBlockAxialMesh) from the assemblies only when the core
+    was NOT loaded from a database: every store into those parameters lies on the `dbLoad` false side and under no other alternative.
+    (b) Component.finalizeLoadingFromDB hands the stored theoretical-density fraction to the material on every path - a material class whose
+    own default is not 1.0 (B4C: 0.9) otherwise keeps its default when 1.0 was stored.  (c) the xsType of a block is rebuilt from its stored
+    number by getXSTypeLabelFromNumber: the codec rule of C20 (R20.4) decides that conversion here too."""
+    from .c20 import r4_label_codec
+    f = idx.method("armi.reactor.cores.Core", "processLoading")
+    flag = next((p_ for p_ in f.params() if p_.lower() == "dbload"), None)
+    sts = [s_ for s_ in iter_stores(f.node) if s_.chain in ("self.p.axialMesh", "self.p.referenceBlockAxialMesh")]
+    if flag is None or len(sts) < 2:
+        raise AnchorMissing("Core.processLoading: dbLoad and the mesh parameter stores")
+    for s_ in sts:
+        conds = [(norm(t), p_) for t, p_ in path_conditions(f.node, s_.stmt) if flag in {x.id for x in ast.walk(t) if isinstance(x, ast.Name)}]
+        ok = bool(conds) and all((c == flag and not p_) or (c == f"not {flag}" and p_) for c, p_ in conds)
+        r.require(ok, f"processLoading:{s_.attr}:only-when-not-loading", f, node=s_.stmt,
+                  msg=f"`{norm(s_.stmt)[:70]}` runs under {conds}: on a database load the stored mesh parameter is replaced by one recomputed from the present block heights")
+    g = idx.method("armi.reactor.components.component.Component", "finalizeLoadingFromDB")
+    fl = Flow(g.node, lambda nd: ["td"] if isinstance(nd, ast.Call) and call_attr(nd) == "adjustTD" else []).run()
+    r.require(not fl.must_at_normal_exits("td"), "finalizeLoadingFromDB:theoretical-density-applied-on-every-path", g,
+              msg="a path leaves finalizeLoadingFromDB without material.adjustTD(...): the material keeps the default density fraction of its class although another one was stored")
+    # only the clause that concerns the load path (the number stored is split at the encoder's field width); the label-range clauses of
+    # R20.4 are a recorded finding of C20 (F11) and are not repeated here
+
+    class _Only:
+        def __init__(self, inner, keys):
+            self.inner, self.keys = inner, keys
+
+        def require(self, cond, key, *a, **k):
+            return self.inner.require(cond, key, *a, **k) if key in self.keys else None
+
+        def violate(self, key, *a, **k):
+            return self.inner.violate(key, *a, **k) if key in self.keys else None
+
+        def ok(self, key, *a, **k):
+            return self.inner.ok(key, *a, **k) if key in self.keys else None
+
+        def undecided(self, key, *a, **k):
+            return self.inner.undecided(key, *a, **k) if key in self.keys else None
+
+        def error(self, msg):
+            return self.inner.error(msg)
+    r4_label_codec(idx, _Only(r, {"decoder-slices"}))
+
+
 def r16_pairing(idx, r):
     from ..pairing import pairing_rule
     pairing_rule(idx, r, ["armi.bookkeeping.db"], 60)
@@ -809,3 +854,5 @@ def run(idx, chk):
                  necessary="the state loaded for a time node is the state written for that node")
     chk.run_rule("R04.16", "arguments stand at the parameter they are named after; sibling calls forward the same pass-through parameters", lambda r: r16_pairing(idx, r), floor=1,
                  necessary="the reader is handed the cycle, node and label the caller named")
+    chk.run_rule("R04.17", "mesh parameters are recomputed only when not loading; the stored density fraction is always applied; the xsType codec (R20.4)", lambda r: r17_loaded_state_not_recomputed(idx, r), floor=4,
+                 necessary="every parameter of the loaded reactor equals the written one")
